@@ -41,6 +41,16 @@ def run(ctx):
             texts.append(w[:i])
             texts.append(w[:i] + ")" + w[i:])
             texts.append(w[:i] + "(" + w[i:])
+    # size classes: long values (raw multi-byte text triples in the text form), long attribute option runs, wide lists — a few inputs each
+    for n in (300, 8000, 22000, 30000, 70000):
+        texts.append("(description=" + "é" * n + ")")
+        texts.append("(description=" + "x" * n + ")")
+        texts.append("(cn=" + "ab*" * (n // 3) + "c)")
+    for n in (200, 600, 3000):
+        texts.append("(|" + "(uid=%d)" * n % tuple(range(n)) + ")")
+        texts.append("(&(objectClass=*)(|" + "(uid=é%d)" * n % tuple(range(n)) + "))")
+        texts.append("(cn" + ";x-%d" * 50 % tuple(range(50)) + "=v)")
+    n_model_free = len(texts)
     violations = []
     hist = collections.Counter()
     distinct = set()
